@@ -136,6 +136,11 @@ func genProfile(t *simrt.Tape, o genOpts) *profile.Profile {
 		p.Location = append(p.Location, l)
 	}
 	ns := 1 + t.Choose(K, o.maxSamples)
+	if o.odd && t.Bool(K, 6) {
+		// no sample types and no samples: still a valid profile
+		p.SampleType = nil
+		nt, ns = 0, 0
+	}
 	for i := 0; i < ns; i++ {
 		s := &profile.Sample{}
 		depth := 1 + t.Choose(K, o.maxDepth)
